@@ -255,15 +255,21 @@ def run_all(modname, tier, jobs):
         parts = mapper(_unit, units)
         # a unit that died on a solver-internal error (z3 context in a bad state) is retried once in a
         # fresh process before it is reported as a crash
-        redo = [i for i, p in enumerate(parts) if isinstance(p, dict) and "crash" in p and "Z3Exception" in str(p["crash"])]
+        def _shaky(p):
+            if not isinstance(p, dict):
+                return False
+            if "crash" in p:
+                return "Z3Exception" in str(p["crash"])
+            # an obligation the solver gave up on: ask once more in a process whose z3 context is fresh
+            # (a cancellation left behind by an earlier query makes every later answer "unknown")
+            return any(isinstance(o, dict) and o.get("status") == "unknown" for o in p.get("obs", []) or [])
+        redo = [i for i, p in enumerate(parts) if _shaky(p)]
+        redo = [i for i in redo if units[i][2] not in (None, "TRUNCATED")]
         if redo and not serial:
-            import concurrent.futures as cf
-            for i in redo:
-                try:
-                    with cf.ProcessPoolExecutor(max_workers=1, mp_context=mp.get_context("fork")) as ex:
-                        parts[i] = ex.submit(_unit, units[i]).result()
-                except Exception:
-                    pass
+            again = mapper(_unit, [units[i] for i in redo])
+            for i, p in zip(redo, again):
+                if isinstance(p, dict) and ("crash" not in p or "crash" in parts[i]):
+                    parts[i] = p
     finally:
         pass
     results = []
